@@ -9,10 +9,10 @@ from tools import dfir, vlib
 class C22(dfir.DfirSpec):
     tag = "C22"
     props_vo = "theories/Props/C22.vo"
-    theorems = ["C22_perturbation_operators", "C22_identity_insert", "C22_pull_push", "C22_realisation_is_model", "C22_partition_shape", "C22_gadgets", "C22_splice_preserves"]
+    theorems = ["C22_perturbation_operators", "C22_identity_insert", "C22_pull_push", "C22_realisation_is_model", "C22_partition_shape", "C22_gadgets", "C22_splice_preserves", "C22_rename_preserves_run"]
     modes = ("ticks", "avail")
     level = "other"
-    explanation = 'Not category proof: (iii) compile/fail agreement is not a Coq theorem here (every catalogue variant compiles, the formerly rejected variant is a regression probe; that splicing non-delayed pass-through nodes preserves same-tick cycles both ways, which with C19_rejects_iff_cycle would give it, is not proved); and the link between a concrete lowered variant and `splice` of its base is up to renaming of wire / operator ids, which is not formalised. Proved: (i) pull = push realisation for fold, persist, fold_keyed, sort_by_key (C22_pull_push, C22_realisation_is_model); (ii) every well-formed partition of a flat graph computes its denotation (C22_partition_shape), the three gadgets of the perturbation grammar -- identity, tee+null, union+null -- are pass-throughs (C22_gadgets) and splicing any pass-through gadget into any flat graph preserves sink outputs, tick counts and the states of the original operators over every history (C22_splice_preserves).'
+    explanation = "Not category proof: (iii) compile/fail agreement is not a Coq theorem: the edge-subdivision lemma (splicing a non-delayed pass-through node into an edge preserves same-tick cycles both ways, over e6-partition's is_cycle / same_tick_deps, which with C19_rejects_iff_cycle would give equal accept/reject verdicts) is not written; every catalogue variant compiles and the formerly rejected variant is a regression probe. Proved: (i) pull = push realisation for fold, persist, fold_keyed, sort_by_key (C22_pull_push, C22_realisation_is_model); (ii) every well-formed partition of a flat graph computes its denotation (C22_partition_shape); identity, tee+null and union+null are pass-through gadgets (C22_gadgets); splicing any pass-through gadget into any flat graph preserves sink outputs, tick counts and the states of the original operators over every history (C22_splice_preserves); and the denotation is invariant under injective renamings of wire and operator ids (C22_rename_preserves_run), which is how a lowered variant relates to `splice` of its base."
     assumptions = [
         "the operator models do not distinguish the pull and push realisations of a write_fn; equality of the two "
         "realisations and of different partitions is tested (variant against variant, and each variant against the "
